@@ -37,6 +37,7 @@ import Relic.Driver.Xap
 import Relic.Driver.MsiSign
 import Relic.Driver.Dmg
 import Relic.Driver.CHttp
+import Relic.Driver.Readers
 open Relic
 
 def dispatch (line : String) : String :=
@@ -83,6 +84,7 @@ def dispatch (line : String) : String :=
   | "MSIS" :: rest => Relic.Driver.MsiSign.handle rest
   | "DMG" :: rest => Relic.Driver.Dmg.handle rest
   | "CHTTP" :: rest => Relic.Driver.CHttp.handle rest
+  | "RD" :: rest => Relic.Driver.Readers.handle rest
   | _ => "bad-op"
 
 partial def loop (h : IO.FS.Stream) (out : IO.FS.Stream) : IO Unit := do
